@@ -140,10 +140,20 @@ class _Fork(Exception):
     pass
 
 
-def run_one(d, order=None, cons_order=None, session_order=None, shift=0, fork_at=None):
+def run_one(d, order=None, cons_order=None, session_order=None, shift=0, fork_at=None, peek=False):
     watch = TieWatch(unint=bool(d["scheduler"].get("unint")))
     sch = build.build_scheduler(d, sort_wrapper=watch)
     sim, evs = build.build_sim(d, scheduler=sch, order=order, cons_order=cons_order, session_order=session_order, shift=shift)
+    if peek:
+        # a read-only look through the scheduler's own interface before run() (logging the initial state): equal inputs still
+        with warnings.catch_warnings():
+            warnings.simplefilter("ignore")
+            try:
+                i_ = sim.scheduler.interface
+                i_.active_sessions(); i_.last_applied_pilot_signals; i_.last_actual_charging_rate; i_.current_time; i_.infrastructure_info()
+                i_.get_prev_peak()
+            except Exception:
+                pass
     if fork_at is not None:
         # the run is paused by a scheduler exception at its fork_at-th invocation, the WHOLE simulator is deep-copied, and the copy is
         # run to the end (the original too): equal state must give equal outputs
@@ -298,11 +308,12 @@ def run_case(case, obs):
             obs.ev("shift_skipped_recompute_phase")
     if kind != "sorted" or not d["scheduler"].get("est"):
         rels.append(("fork", {"fork_at": rng.choice([1, 2, 3, 5])}, False))
+    rels.append(("peek", {"peek": True}, True))
     tie = base["tie"]
     for name, kw, exact in rels:
         alt = run_one(d, **kw)
         tie = tie or alt["tie"]
-        if kind == "sorted" and tie and name not in ("rebuild", "shift", "fork"):
+        if kind == "sorted" and tie and name not in ("rebuild", "shift", "fork", "peek"):
             obs.ev("tie_dependent_not_judged")
             obs.boundary += 1
             continue
@@ -313,7 +324,7 @@ def run_case(case, obs):
         if alt["df_bad"]:
             obs.violate("as_df_accessor_mislabelled", f"{name} {kw}: " + alt["df_bad"], scenario=d, relation=name, params=kw)
         diff = compare(base, alt, exact=exact, shift=kw.get("shift", 0))
-        ident = all(list(v) == list(range(len(v))) for kk, v in kw.items() if kk not in ("shift", "fork_at"))
+        ident = all(list(v) == list(range(len(v))) for kk, v in kw.items() if kk not in ("shift", "fork_at", "peek"))
         if (name == "shift") or (not ident and n >= 2 and (m >= 1 or len({s["voltage"] for s in net["stations"]}) > 1)):
             obs.nontrivial([obs.case_hash, name])
         if diff is not None:
